@@ -1,5 +1,9 @@
 from .runner import M
 
+# test_time_format is not collectable offline (allmydata.test needs collections_extended), so the time_format
+# variants are not caught by the 151 runnable tests; test_abbreviate (10 tests) runs: the two abbreviate variants it
+# would catch are marked in their note.
+
 TF = "src/allmydata/util/time_format.py"
 AB = "src/allmydata/util/abbreviate.py"
 CL = "src/allmydata/client.py"
@@ -14,17 +18,15 @@ MUTANTS = [
       'pattern = rf"^\\s*(\\d+)\\s*({unit_pattern})\\s*$"', 'pattern = rf"^.*?(\\d+)\\s*({unit_pattern})\\s*$"', "C48.1"),
     M("dur-unit-without-multiplier", TF,
       '    DAYS1 = "days"\n', '    DAYS1 = "days"\n    WEEKS0 = "week"\n    WEEKS1 = "weeks"\n', "C48.1"),
-    M("dur-month-30", TF, "    MONTH = 31*DAY\n", "    MONTH = 30*DAY\n", "C48.1",
-      note="also caught by test_time_format"),
+    M("dur-month-30", TF, "    MONTH = 31*DAY\n", "    MONTH = 30*DAY\n", "C48.1"),
     M("dur-result-not-multiplied", TF,
-      "    return number * time_map[unit]", "    return number + time_map[unit]", "C48.1", note="also caught by test_time_format"),
+      "    return number * time_map[unit]", "    return number + time_map[unit]", "C48.1"),
     # ---- C48.2 documented durations
     M("dur-doc-spelling-mo-dropped", TF,
       '    MONTHS0 = "mo"\n', "", "C48.2",
-      edits=[(TF, "        ParseDurationUnitFormat.MONTHS0: MONTH,\n", "")], note="also caught by test_time_format"),
+      edits=[(TF, "        ParseDurationUnitFormat.MONTHS0: MONTH,\n", "")]),
     M("dur-doc-space-required", TF,
-      'pattern = rf"^\\s*(\\d+)\\s*({unit_pattern})\\s*$"', 'pattern = rf"^\\s*(\\d+)\\s+({unit_pattern})\\s*$"', "C48.2",
-      note="also caught by test_time_format"),
+      'pattern = rf"^\\s*(\\d+)\\s*({unit_pattern})\\s*$"', 'pattern = rf"^\\s*(\\d+)\\s+({unit_pattern})\\s*$"', "C48.2"),
     # ---- C48.3 parse_abbreviated_size grammar / table
     M("size-signed-number", AB,
       'm = re.match(r"^(\\d+)([KMGTPE]?[I]?[B]?)$", s.upper())', 'm = re.match(r"^(-?\\d+)([KMGTPE]?[I]?[B]?)$", s.upper())', "C48.3"),
@@ -48,10 +50,12 @@ MUTANTS = [
     M("date-month-width", TF, "(?P<month>\\d{2})", "(?P<month>\\d{1,2})", "C48.5"),
     M("date-fields-swapped", TF,
       "calendar.timegm( (year, month, day, hour, minute, second, 0, 1, 0) )",
-      "calendar.timegm( (year, day, month, hour, minute, second, 0, 1, 0) )", "C48.5", note="also caught by test_time_format"),
+      "calendar.timegm( (year, day, month, hour, minute, second, 0, 1, 0) )", "C48.5"),
     M("date-not-midnight", TF,
-      '    return int(iso_utc_time_to_seconds(s + "T00:00:00"))', '    return int(iso_utc_time_to_seconds(s + "T12:00:00"))', "C48.5",
-      note="also caught by test_time_format"),
+      '    return int(iso_utc_time_to_seconds(s + "T00:00:00"))', '    return int(iso_utc_time_to_seconds(s + "T12:00:00"))', "C48.5"),
+    # ---- C48.6 date grammar consumes the whole value (the missing end anchor is a finding of the unchanged tree;
+    # a missing start anchor is reported on a different construct)
+    M("date-search-unanchored", TF, "    m = _conversion_re.match(isotime)", "    m = _conversion_re.search(isotime)", "C48.6"),
     # ---- C48.7 printer within the parser's grammar (a new output shape gets a new construct key)
     M("printer-new-shape", AB,
       '    return r(s/(U*U*U*U*U*U), "E")', '    if s >= U*U*U*U*U*U*U:\n        return "%.3g ZB" % (s/(U*U*U*U*U*U*U))\n    return r(s/(U*U*U*U*U*U), "E")',
